@@ -314,6 +314,11 @@ pub fn generated_inputs(ctx: &Ctx) -> Vec<Value> {
         res.push(json!({"keep": 10, "prelude": [10, 11, 12], "runs": [13], "request": {"kind": kind, "client": 1}}));
     }
     res.push(json!({"keep": 10, "prelude": [10, 11], "runs": [11], "request": {"kind": "data", "client": 1}}));
+    // history-size 0: one delta is retained all the same (repaired push_delta)
+    for (kind, client) in [("delta", 0), ("delta", 1), ("rtr-serial", 1), ("data", 1)] {
+        res.push(json!({"keep": 0, "prelude": [10, 11], "runs": [12], "request": {"kind": kind, "client": client}}));
+    }
+    res.push(json!({"keep": 0, "prelude": [], "runs": [10], "request": {"kind": "delta", "client": 0}}));
     if thorough {
         for kind in ["delta", "rtr-serial"] {
             for client in [0, 2] {
@@ -339,7 +344,7 @@ pub fn run_c15(ctx: &mut Ctx) {
         (parked at every SharedHistory lock acquisition and before notify) with one request of each kind \
         (HTTP /json, /json-delta with current/older/future/foreign/no version, /json-delta/notify answer \
         on a live http_listener; RTR reset, serial, notify through SharedHistory's PayloadSource impl \
-        behind the ready() gate) on histories of 0–2 (thorough 3) versions, keep 10 and 1 (thorough 2), \
+        behind the ready() gate) on histories of 0–2 (thorough 3) versions, keep 10, 1 and 0 (thorough also 2), \
         a changing or non-changing run (thorough: two runs, two concurrent requests); distinct by \
         (request, history length, position of the request's first step, result)".into();
     let dir = Director::new();
